@@ -173,8 +173,28 @@ def check_system(case):
     selector = (lambda mol: mol.meta['sel']) if case['selector'] == 'meta' else is_protein
     before = [{k: dict(d) for k, d in mol.nodes(data=True)} for mol in system.molecules]
     status, exp = ref_assign(case)
+    proc = AnnotateResidues(attr, case['seq'], molecule_selector=selector)
+    if len(case['seq']) >= 1 and int(harness.h([case['seq'], len(case['mols'])]), 16) % 5 < 2:
+        # the processor object has been used before, on a system of two selected molecules as long as the sequence each (the
+        # documented repeat), and is now reused: it must treat the new system exactly as a fresh object would
+        from vermouth.forcefield import ForceField
+        from vermouth.molecule import Molecule
+        from vermouth.system import System
+        ff0 = ForceField(name='verif_c17_primer')
+        primer = System(force_field=ff0)
+        for c_ in 'PQ':
+            m0 = Molecule(force_field=ff0)
+            m0.meta['sel'] = True
+            for j in range(len(case['seq'])):
+                m0.add_node(j, atomname='BB', resid=j + 1, resname='ALA', chain=c_)
+            primer.add_molecule(m0)
+        try:
+            proc.run_system(primer)
+        except Exception as e:
+            return ('valid-sequence-rejected', {'raised': type(e).__name__, 'where': 'first use of the processor (repeat over two molecules)'}), \
+                {}, False, False
     try:
-        AnnotateResidues(attr, case['seq'], molecule_selector=selector).run_system(system)
+        proc.run_system(system)
         raised = None
     except ValueError as e:
         raised = 'ValueError'
